@@ -100,6 +100,9 @@ var c15Before = [][]string{{"Apache-2.0-or-later"}, {"MIT"}, {"MIT-or-later+", "
 var c15Bad = []struct{ tok, kind string }{
 	{"FOO", "unknown"}, {"foo-1.0", "unknown"}, {"and", "unknown"}, {"MIT-or-later-or-later", "unknown"},
 	{"LicenseRef-", "missing"}, {"DocumentRef-", "missing"}, {"#", "missing"}, {"\t", "missing"},
+	// long lexemes (a message that shortens what it cites no longer cites the caller's text)
+	{"Acme-" + strings.Repeat("x", 43), "unknown"}, {"Acme-" + strings.Repeat("x", 44), "unknown"}, {"Acme-Proprietary-License-" + strings.Repeat("1.0.", 20) + "0", "unknown"},
+	{strings.Repeat("unknown-", 40) + "id", "unknown"},
 }
 
 func init() {
